@@ -225,14 +225,17 @@ macro_rules! purge_method_for_document_type {
       K: JwkStorage,
       I: KeyIdStorage,
     {
-      let (method, scope) = document.remove_method_and_scope(id).ok_or(Error::MethodNotFound)?;
+      // Removing a general-purpose method also removes the relationship references to it, which
+      // `insert_method(method, scope)` cannot bring back: roll back to a snapshot of the document instead.
+      let snapshot: $t = document.clone();
+      let (method, _scope) = document.remove_method_and_scope(id).ok_or(Error::MethodNotFound)?;
 
       // Obtain method digest and handle error if this operation fails.
       let method_digest: MethodDigest = match MethodDigest::new(&method).map_err(Error::MethodDigestConstructionError) {
         Ok(digest) => digest,
         Err(error) => {
           // Revert state by reinserting the method before returning the error.
-          let _ = document.insert_method(method, scope);
+          *document = snapshot;
           return Err(error);
         }
       };
@@ -245,7 +248,7 @@ macro_rules! purge_method_for_document_type {
         Ok(key_id) => key_id,
         Err(error) => {
           // Reinsert method before returning.
-          let _ = document.insert_method(method, scope);
+          *document = snapshot;
           return Err(error);
         }
       };
@@ -285,14 +288,14 @@ macro_rules! purge_method_for_document_type {
             })
           } else {
             // KeyId reinsertion succeeded. Now reinsert method.
-            let _ = document.insert_method(method, scope);
+            *document = snapshot;
             Err(Error::KeyStorageError(key_deletion_error))
           }
         }
         (Err(_key_deletion_error), Err(key_id_deletion_error)) => {
           // We assume this means nothing got deleted. Reinsert the method and return one of the errors (perhaps
           // key_id_deletion_error as we really expect the key id storage to work as expected at this point).
-          let _ = document.insert_method(method, scope);
+          *document = snapshot;
           Err(Error::KeyIdStorageError(key_id_deletion_error))
         }
       }
